@@ -131,7 +131,8 @@ class PrecomputedIO:
             raise NotImplementedError("voxel_offset is not supported")
         for chunk_size in scale_info["chunk_sizes"]:
             xcs, ycs, zcs = chunk_size
-            if (xmin % xcs == 0 and (xmax == min(xmin + xcs, xs))
+            if (0 <= xmin < xs and 0 <= ymin < ys and 0 <= zmin < zs
+                    and xmin % xcs == 0 and (xmax == min(xmin + xcs, xs))
                     and ymin % ycs == 0 and (ymax == min(ymin + ycs, ys))
                     and zmin % zcs == 0 and (zmax == min(zmin + zcs, zs))):
                 return True
